@@ -369,14 +369,16 @@ class History:
               'nested'  k results are taken, the `inner` operations run while the generator is suspended, then the
                         rest is taken
     event: {'ck', 'ni', 'mode', 'k', 'ny': items delivered, 'oc': 'ok' | exception class, 'res': decoded results,
-            'conc': enumerations suspended on the same checker meanwhile}     (indices are 1-based)"""
+            'conc': enumerations of the same checker that are suspended meanwhile and resumed later}
+    (indices are 1-based)"""
 
     def __init__(self, model, saved, names, decode=decode_matches):
         self.model, self.saved, self.names = model, saved, names
         self.decode = decode
         self.cks = []          # (checker, FnTable, via)
         self.hist = []
-        self.susp = []         # (ck index, generator) suspended at the moment
+        self.nest = []         # (ck index, generator) suspended at the moment, to be resumed ('nested')
+        self.susp = []         # (ck index, generator) abandoned by their consumers but still referenced ('keep')
 
     def add(self, ck, ft, via):
         self.cks.append((ck, ft, via))
@@ -401,7 +403,7 @@ class History:
     def enum(self, c, ni, mode, k=0, end='close', inner=()):
         ck, ft, _ = self.cks[c - 1]
         ev = {'ck': c, 'ni': ni, 'mode': mode, 'k': k, 'ny': 0, 'oc': 'ok', 'res': [],
-              'conc': sum(1 for c2, _ in self.susp if c2 == c)}
+              'conc': sum(1 for c2, _ in self.nest if c2 == c)}
         self.hist.append(ev)
         raw = []
         gen = None
@@ -419,11 +421,11 @@ class History:
                         break
                 if mode == 'nested':
                     me = (c, gen)
-                    self.susp.append(me)
+                    self.nest.append(me)
                     try:
                         self.run(inner)
                     finally:
-                        self.susp.remove(me)
+                        self.nest.remove(me)
                     for item in gen:
                         raw.append(item)
         except Exception as e:  # noqa
